@@ -607,7 +607,7 @@ func checkC06(c *Ctx) {
 	r := &c06Runner{w: newWorker(obsBackground(c)), g: g}
 	lat := c06Lattice(c.Quick())
 	instrs := c06Instrs()
-	c.Rule = fmt.Sprintf("TLC generates the complete state graph of models/Z80Int.tla (MaxNest=3; %d distinct states, %d edges; model invariants AcceptClears, NotifyExact, NoSkip, NMIAlways, MaskRespected checked by TLC). (1) for every model state x %d concrete instruction variants of the 10 model instructions x %d data-lattice points (PC incl. wrap, SP incl. wrap and stack overlapping PC, I x vector, mode-0 data RST 00..38 and CALL nn, HALT flag): build the concrete representative (depth = real return frames, pend = a real request object matching IM), perform one real Step, abstract the result and require it to be a TLC successor of the state under that driver action; then check the concrete obligations of the edge taken (target PC, pushed address, IFF1/IFF2, request consumed or identical object still pending, no program fetch on acceptance, executed instruction identical to refz80's Step without request, handler counters). (2) BFS over the implementation's own transitions from the initial concrete state, every transition validated against the graph. (3) every implemented encoding: RETN/RETI handlers notified exactly by ED 45/ED 4D (also with nil handlers). (4) mode 0: every implemented encoding except CALL/RST delivered as request data x quick lattice x 4 F, compared with refz80 executing that instruction (registers, flags, writes, ports, notifications; IFF1=IFF2=0; no program-memory read inside [PC,PC+len); PC/R/halted not compared). Request shapes: constructor-built, mode 1 with a data byte, mode 2 with an odd vector (dispatch target not judged). After every executed (not accepting) Step the same Step is repeated with a device raising an NMI from the k-th callback for every k (memory and port accesses, RETN/RETI notifications): that request must be what is pending afterwards. The implementation BFS reuses one request object per kind with re-pointed Data, installs a fresh Memory object before every Step (accesses through an older object are errors) and checks the dispatch target of every acceptance. Non-trivial = an edge with a pending request or an interrupt-control instruction (counted).", len(g.states), g.edges, len(instrs), len(lat))
+	c.Rule = fmt.Sprintf("TLC generates the complete state graph of models/Z80Int.tla (MaxNest=3; %d distinct states, %d edges; model invariants AcceptClears, NotifyExact, NoSkip, NMIAlways, MaskRespected checked by TLC). (1) for every model state x %d concrete instruction variants of the 10 model instructions x %d data-lattice points (PC incl. wrap, SP incl. wrap and stack overlapping PC, I x vector, mode-0 data RST 00..38 and CALL nn, HALT flag): build the concrete representative (depth = real return frames, pend = a real request object matching IM), perform one real Step, abstract the result and require it to be a TLC successor of the state under that driver action; then check the concrete obligations of the edge taken (target PC, pushed address, IFF1/IFF2, request consumed or identical object still pending, no program fetch on acceptance, executed instruction identical to refz80's Step without request, handler counters). (2) BFS over the implementation's own transitions from the initial concrete state, every transition validated against the graph. (3) every implemented encoding: RETN/RETI handlers notified exactly by ED 45/ED 4D (also with nil handlers). (4) mode 0: every implemented encoding except CALL/RST delivered as request data x quick lattice x 4 F, compared with refz80 executing that instruction (registers, flags, writes, ports, notifications; IFF1=IFF2=0; no program-memory read inside [PC,PC+len); PC/R/halted not compared). Request shapes: constructor-built, mode 1 with a data byte, mode 2 with an odd vector (dispatch target not judged). After every executed (not accepting) Step the same Step is repeated with a device raising an NMI from the k-th callback for every k (memory and port accesses, RETN/RETI notifications): that request must be what is pending afterwards. (5) the request constructors for all 256 bytes: documented type and data, storage of its own per call (in-place edits and appends do not reach other requests). The implementation BFS reuses one request object per kind with re-pointed Data, installs a fresh Memory object before every Step (accesses through an older object are errors) and checks the dispatch target of every acceptance. Non-trivial = an edge with a pending request or an interrupt-control instruction (counted).", len(g.states), g.edges, len(instrs), len(lat))
 	c.Bound = "nesting depth 3; data lattice " + c.Tier
 	var n, nt, skipped int64
 	failedKeys := map[string]bool{}
@@ -658,6 +658,8 @@ func checkC06(c *Ctx) {
 	c06Notifications(c)
 	// (4) mode 0 with every implemented instruction as request data
 	c06IM0All(c)
+	// (5) the request constructors hand every caller an object of its own
+	c06Constructors(c)
 	c.Exhaustive = true
 	c.Assume("EI: acceptance at the next Step or one instruction later are both model successors; RETI: IFF1 unchanged or copied from IFF2 (DESIGN §6)")
 	c.Assume("mode 0: only RST n and CALL nn are used as supplied instructions; the pushed return address may be PC or PC+len (the latter is C07's known finding)")
@@ -864,6 +866,76 @@ func c06BFS(c *Ctx, r *c06Runner) (int, int) {
 	}
 	c.Set("implementation_bfs_search_states", len(seen))
 	return len(absSeen), trans
+}
+
+// c06Constructors: NMIInterrupt, IM0Interrupt, IM1Interrupt and IM2Interrupt build a request with the
+// documented type and data, and every call returns storage of its own: a device that edits its request in
+// place (a programmable vector register: req.Data[0] = v) must not change the request of any other device,
+// built earlier or later with the same bytes, nor may appending to Data reach foreign memory.
+func c06Constructors(c *Ctx) {
+	var n int64
+	bad := func(what string, v int, msg string) {
+		c.Report("c06/constructors:"+what, int64(v), "", map[string]interface{}{"constructor": what, "byte": v}, []string{msg})
+	}
+	for v := 0; v < 256; v++ {
+		b := uint8(v)
+		type mk struct {
+			name string
+			f    func() *z80.Interrupt
+			want []uint8
+		}
+		for _, m := range []mk{
+			{"IM2Interrupt", func() *z80.Interrupt { return z80.IM2Interrupt(b) }, []uint8{b}},
+			{"IM0Interrupt(d)", func() *z80.Interrupt { return z80.IM0Interrupt(b) }, []uint8{b}},
+			{"IM0Interrupt(d, n, n)", func() *z80.Interrupt { return z80.IM0Interrupt(b, b^0xFF, 0x12) }, []uint8{b, b ^ 0xFF, 0x12}},
+		} {
+			r1, r2 := m.f(), m.f()
+			n++
+			if r1 == r2 {
+				bad(m.name, v, fmt.Sprintf("%s(%02X) returned the same object twice", m.name, b))
+				continue
+			}
+			if r1.Type != z80.IMType || string(r1.Data) != string(m.want) || string(r2.Data) != string(m.want) {
+				bad(m.name, v, fmt.Sprintf("%s(%02X): Type %d Data % X, want Type %d Data % X", m.name, b, r1.Type, r1.Data, z80.IMType, m.want))
+				continue
+			}
+			// in-place edit of the first request
+			for i := range r1.Data {
+				r1.Data[i] ^= 0x5A
+			}
+			r3 := m.f()
+			if string(r2.Data) != string(m.want) || string(r3.Data) != string(m.want) {
+				bad(m.name, v, fmt.Sprintf("%s(%02X): after the owner of one request edited its Data in place (XOR 5A), another request built with the same bytes reads % X and a newly built one % X (want % X): the constructors share storage", m.name, b, r2.Data, r3.Data, m.want))
+				continue
+			}
+			// appending to one request's data must not reach another's
+			r2.Data = append(r2.Data, 0xEE)
+			r4 := m.f()
+			r4.Data = append(r4.Data, 0x77)
+			if r2.Data[len(r2.Data)-1] != 0xEE || string(r3.Data) != string(m.want) {
+				bad(m.name, v, fmt.Sprintf("%s(%02X): appending to the Data of one request changed another", m.name, b))
+			}
+		}
+	}
+	for _, m := range []struct {
+		name string
+		f    func() *z80.Interrupt
+		t    z80.InterruptType
+	}{{"NMIInterrupt", z80.NMIInterrupt, z80.NMIType}, {"IM1Interrupt", z80.IM1Interrupt, z80.IMType}} {
+		r1, r2 := m.f(), m.f()
+		n++
+		if r1 == r2 || r1.Type != m.t || len(r1.Data) != 0 {
+			bad(m.name, 0, fmt.Sprintf("%s(): same object twice (%v), Type %d (want %d), Data % X (want none)", m.name, r1 == r2, r1.Type, m.t, r1.Data))
+			continue
+		}
+		r1.Type = z80.InterruptType(9)
+		if r3 := m.f(); r2.Type != m.t || r3.Type != m.t {
+			bad(m.name, 0, m.name+"(): editing one request changed another")
+		}
+	}
+	c.Evaluations += n
+	c.Traces += n
+	c.Nontrivial += n
 }
 
 // genMem forwards to m and reports (by panicking: the access is a defect, not a state to continue from)
